@@ -1,7 +1,7 @@
 (* C10 — node usage always equals the sum of the workloads recorded on the node.
 
    MAIN THEOREM (C10_history): for EVERY history of add-pod / add-node / remove-node / set-node / create /
-   remove / dissociate / realloc / replace operations, each with at most one injected fault at ANY faultable call of the
+   remove / dissociate / realloc / replace / run-and-wait operations, each with at most one injected fault at ANY faultable call of the
    operation (store, resource plugin, engine, WAL, lock; [k : option nat] is the index of the failing call), from
    EVERY world satisfying Inv: Inv holds after the history, in particular (C10_history_usage)
        for every plugin record p:  p_use p = sum of w_res over the workloads recorded on p_node p.
@@ -17,7 +17,7 @@
        the statement is FALSE of the code as it is: C10_replace_refuted (a replace whose removal of the old
        workload fails leaves old and new workload recorded on one allocation; known finding
        E1-C10-replace-remove-old-unchecked).  C10_replace_op is the whole-operation theorem.
-     * lambda (run-and-wait) is not a step of the theorem (its parts are create and remove; C30).
+     * run-and-wait: create's hypotheses (C10_lambda_op: the whole operation keeps Inv at every fault position).
    The per-operation theorems below are the same statement one operation at a time (C10_step); C10_create_capacity
    adds usage <= capacity for create; C10_fault_addresses: every fault address (method, target, ordinal) of the
    harness is one of the positions k.
@@ -33,20 +33,31 @@ From Coq Require Import List Bool Arith ZArith.
 From Verif Require Import Base.Effects Calcium.World Calcium.Ops Calcium.Run Calcium.EffectsProofs
   Calcium.OpsProofs Calcium.OpsProofs2 Calcium.InvProofs Calcium.Sweeps Calcium.DeployProofs Calcium.DeployProofs2
   Calcium.CreateProofs Calcium.CreateProofs2 Calcium.NodeProofs Calcium.CapProofs Calcium.HistoryProofs
-  Calcium.Interleave Calcium.InterleaveOps Calcium.Examples.
+  Calcium.Interleave Calcium.InterleaveOps Calcium.LambdaHistory Calcium.Examples.
 
 (* ---- the theorem over histories ---- *)
-Theorem C10_history : forall (h : list (op * option nat)) w, Inv w -> valid_hist w h -> Inv (run_hist w h).
-Proof. exact history_keeps_Inv. Qed.
+Theorem C10_history : forall (h : list (op * option nat)) w, Inv w -> valid_hist_all w h -> Inv (run_hist w h).
+Proof. exact history_all_keeps_Inv. Qed.
 Print Assumptions C10_history.
 
-Theorem C10_history_usage : forall (h : list (op * option nat)) w, Inv w -> valid_hist w h -> use_ok (run_hist w h).
-Proof. exact history_keeps_usage. Qed.
+Theorem C10_history_usage : forall (h : list (op * option nat)) w, Inv w -> valid_hist_all w h -> use_ok (run_hist w h).
+Proof. exact history_all_keeps_usage. Qed.
 Print Assumptions C10_history_usage.
 
-(* one step: any operation but lambda, any fault position *)
-Theorem C10_step : forall w o k, Inv w -> valid_step w (o, k) -> Inv (step_world w (o, k)).
-Proof. exact step_keeps_Inv. Qed.
+(* valid_hist_all = valid_hist (below: C10_step) extended with run-and-wait steps *)
+Theorem C10_valid_hist_all_of : forall h w, valid_hist w h -> valid_hist_all w h.
+Proof. exact valid_hist_all_of. Qed.
+Print Assumptions C10_valid_hist_all_of.
+
+(* whole run-and-wait: create, the closure of every created workload, close *)
+Theorem C10_lambda_op : forall opi pod r plan stdin lines w k, create_hyp w opi r plan -> Inv w ->
+  Inv (after (lambda opi pod r plan stdin lines) w k).
+Proof. exact lambda_keeps_Inv. Qed.
+Print Assumptions C10_lambda_op.
+
+(* one step: any operation, any fault position *)
+Theorem C10_step : forall w o k, Inv w -> valid_step_all w (o, k) -> Inv (step_world w (o, k)).
+Proof. exact step_keeps_Inv_all. Qed.
 Print Assumptions C10_step.
 
 (* whole RemoveWorkload / DissociateWorkload (all nodes, all ids, all messages), every world, every fault position *)
@@ -92,6 +103,18 @@ Theorem C10_interleaving : forall (P1 P2 : call -> Prop) (I : world -> Prop),
     run2 sched p1 k1 p2 k2 w = run2 nil p1 k1 p2 k2 w.
 Proof. exact interleave_is_sequential. Qed.
 Print Assumptions C10_interleaving.
+
+Theorem C10_orders_agree : forall (P1 P2 : call -> Prop) (I : world -> Prop),
+  (forall c w, P1 c -> I w -> I (fst (exec w c))) ->
+  (forall c w, P2 c -> I w -> I (fst (exec w c))) ->
+  (forall c1 c2 w, P1 c1 -> P2 c2 -> I w ->
+    fst (exec (fst (exec w c1)) c2) = fst (exec (fst (exec w c2)) c1) /\
+    snd (exec (fst (exec w c1)) c2) = snd (exec w c2) /\
+    snd (exec (fst (exec w c2)) c1) = snd (exec w c1)) ->
+  forall A B (p2 : cprog B), safe P2 I p2 -> forall (p1 : cprog A) k1 k2 w, I w -> safe P1 I p1 ->
+  run2 nil p1 k1 p2 k2 w = (let '(w', b, a) := run2 nil p2 k2 p1 k1 w in (w', a, b)).
+Proof. exact sequential_orders_agree. Qed.
+Print Assumptions C10_orders_agree.
 
 Theorem C10_inplace_ops_interleave : forall F1 F2 o1 o2 w, disjoint F1 F2 -> ip_in F1 o1 -> ip_in F2 o2 ->
   fp_inv F1 w -> fp_inv F2 w ->
